@@ -4,7 +4,7 @@ From V Require Import Common.Base C01.Utf C01.Quote C01.SpecLiteral C01.QuotePro
 From V Require Import C01.Num C01.SpecNumeric C01.NumProofs C01.NumProofs2 C01.ScriptProofs.
 From V Require Import C13.Token C13.ParseSpec C01.CommaTrace.
 From V Require Import gen.IdTablesGen C01.Keys C01.KeysProofs.
-From V Require Import C01.Template C01.TemplateProofs.
+From V Require Import C01.Template C01.TemplateProofs C01.Tagged C01.TaggedProofs.
 
 (* printQuotedUTF16: for EVERY sequence of UTF-16 code units (lone surrogates
    included), every configuration (charset, unicode-escape support,
@@ -227,3 +227,28 @@ Theorem regexp_boundary_guard : forall cfg js last v,
   (last <> 47 /\ (script_guard cfg = true -> last = 60 -> starts_slash_script v = false)).
 Proof. exact regexp_guard. Qed.
 Print Assumptions regexp_boundary_guard.
+
+(* ---- tagged templates ---- *)
+
+(* a tagged template is printed as "`" HeadRaw ( ${ expr } TailRaw )* "`" with
+   the stored raw strings verbatim.  For every raw text the lexer can have
+   stored (js_lexer.CookedAndRawTemplateContents: the chunk's source text with
+   <CR><LF> and <CR> already replaced by <LF>; a complete chunk: no unescaped
+   backtick or ${ inside, no trailing backslash - [lexer_raw]) and any number
+   of substitutions, the Template Raw Values (ECMA-262 12.9.6 TRV) of the
+   printed template are exactly the stored raw strings (as UTF-16).  Since the
+   cooked strings (including `undefined` for an invalid escape, ES2018) are a
+   function of the raw text, they are preserved as well. *)
+Theorem tagged_template_raw_roundtrip : forall head tails,
+  lexer_raw head -> Forall lexer_raw tails ->
+  raw_value (tagged_cps head tails) = Some (map units (head :: tails)).
+Proof. exact tagged_raw_roundtrip_all. Qed.
+Print Assumptions tagged_template_raw_roundtrip.
+
+(* the bytes of the model are the rendering of those code points (one
+   `${this}` per marker in the correspondence run) *)
+Theorem tagged_template_bytes : forall head tails,
+  render (tagged_cps head tails) = print_tagged (to_bytes head) (map to_bytes tails)
+  \/ In SUBST head \/ Exists (In SUBST) tails.
+Proof. exact print_tagged_render. Qed.
+Print Assumptions tagged_template_bytes.
